@@ -84,6 +84,7 @@ def C11_2_3_4(ctx, facts):
         rr = f.roots(c.args[1], through_calls=False)
         ok = rr and all(r.kind == "call" and r.site.bb in {p.bb for p in pops} for r in rr)
         ctx.check(ok, "process_all|start-only-popped", "only candidates just popped from the queue are started (moved: at most once each)", "tasks.push receives %s" % sorted(map(repr, rr)), c.where())
+    every_popped_started(ctx, facts)
     other = [c for g in facts.fns.values() if g.nkey.startswith("happy_eyeballs") and g.key != f.key for c in g.calls() if c.matches(r"FuturesUnordered.*::push$")]
     ctx.check(not other, "tasks.push|only-in-process_all", "attempts are started only in process_all", "tasks.push also in %s" % [c.fn.nkey for c in other])
     # initial batch
@@ -128,6 +129,34 @@ def C11_2_3_4(ctx, facts):
     for (b, i, s) in tm:
         g, w = j.guarded(b, lambda lab: lab.kind == "variant" and lab.variants == {"Err"})
         ctx.check(g, "join_next_with_timeout|Timeout-on-elapsed", "Eyeball::Timeout only on the elapsed edge", "Eyeball::Timeout on another edge", j.where(b), j.path_desc(w))
+
+
+def every_popped_started(ctx, facts):
+    """Linear use of a popped candidate: from the Some edge of a queue.pop_front, every path that goes on (to another pop, to the drain
+    loop, or to a failure return) starts the candidate (tasks.push of that value); it may only be dropped on a success return."""
+    f = facts.fn(PA)
+    tpush = [c for c in f.calls() if c.matches(r"FuturesUnordered.*::push$")]
+    pops = f.calls(VDQ + "::pop_front")
+    jn = c10.aw_of(f, "happy_eyeballs::EyeballSet::join_next")
+    ok_rets = set()
+    for (k, b, x) in assigns_to_return(f, f.live):
+        if k == "stmt" and x["r"].get("v") == "Ok":
+            ok_rets |= f.reach([b])
+    for p in pops:
+        some = [(a, b) for (a, b, lab) in f.edges() if lab is not None and lab.kind == "variant" and lab.variants == {"Some"} and
+                f.call_defining(lab.place["l"]) is not None and f.call_defining(lab.place["l"]).bb == p.bb]
+        mine = {c.bb for c in tpush if any(r.kind == "call" and r.site.bb == p.bb for r in f.roots(c.args[1], through_calls=False))}
+        for (a, b) in some:
+            targets = [q.bb for q in pops] + [x["future"].bb for x in jn] + [r for r in f.returns if r not in ok_rets]
+            # returns reached only through an Ok(..) assignment are success returns
+            bad = None
+            for t in targets:
+                pth = f.path(b, [t], avoid_blocks=mine | {bb for bb in ok_rets if bb not in f.returns})
+                if pth is not None:
+                    bad = pth
+                    break
+            ctx.check(bad is None, "process_all|popped-candidate-started", "a candidate popped from the queue is always started before the procedure moves on (it is dropped only when returning success)",
+                      "a popped candidate can be discarded without being attempted (the loop continues / fails without starting it)", p.where(), f.path_desc(bad))
 
 
 def C11_6(ctx, facts):
